@@ -169,6 +169,7 @@ class TakeWhile(ast.NodeTransformer):
 
 
 class NestedCompToLoop(ast.NodeTransformer):
+    min_generators = 2
     """`t = [E for a in A for b in B if c]` (two or more generators, bound to a local name)  ->
     `t = []` / `for a in A: for b in B: if c: t.append(E)`  - the nested loop it abbreviates.  Only when the comprehension's own variables
     are used nowhere else in the function (they would leak into it otherwise)."""
@@ -191,7 +192,7 @@ class NestedCompToLoop(ast.NodeTransformer):
                 for h in getattr(st, "handlers", []) or []:
                     h.body = rewrite(h.body)
                 if isinstance(st, ast.Assign) and len(st.targets) == 1 and isinstance(st.targets[0], ast.Name) and isinstance(st.value, ast.ListComp) \
-                        and len(st.value.generators) >= 2 and not any(g.is_async for g in st.value.generators):
+                        and len(st.value.generators) >= self.min_generators and not any(g.is_async for g in st.value.generators):
                     comp = st.value
                     inner = {}
                     for n in ast.walk(comp):
@@ -309,6 +310,173 @@ class DotToLoop(ast.NodeTransformer):
     def visit_AugAssign(self, node):
         out = self._rewrite(node, node.value)
         return out if out else node
+
+
+class _AnyCompToLoop(NestedCompToLoop):
+    min_generators = 1
+
+
+def _shadowed(transformer, node):
+    """visit a lambda with the names it binds itself taken out of the mapping"""
+    own = {a.arg for a in node.args.posonlyargs + node.args.args + node.args.kwonlyargs}
+    saved = transformer.mapping
+    transformer.mapping = {k: v for k, v in saved.items() if k not in own}
+    node.body = transformer.visit(node.body)
+    transformer.mapping = saved
+    return node
+
+
+class _Rename(ast.NodeTransformer):
+    def __init__(self, mapping):
+        self.mapping = mapping
+
+    def visit_Lambda(self, node):
+        return _shadowed(self, node)
+
+    def visit_Name(self, node):
+        if node.id in self.mapping:
+            return ast.copy_location(ast.Name(self.mapping[node.id], node.ctx), node)
+        return node
+
+
+class _Replace(ast.NodeTransformer):
+    def __init__(self, mapping):
+        self.mapping = mapping
+
+    def visit_Lambda(self, node):
+        return _shadowed(self, node)
+
+    def visit_Name(self, node):
+        if isinstance(node.ctx, ast.Load) and node.id in self.mapping:
+            import copy
+            return ast.copy_location(copy.deepcopy(self.mapping[node.id]), node)
+        return node
+
+
+def _destructure(target, value, out) -> bool:
+    if isinstance(target, ast.Name):
+        out[target.id] = value
+        return True
+    if isinstance(target, (ast.Tuple, ast.List)) and isinstance(value, (ast.Tuple, ast.List)) and len(target.elts) == len(value.elts) \
+            and not any(isinstance(e, ast.Starred) for e in list(target.elts) + list(value.elts)):
+        return all(_destructure(t, v, out) for t, v in zip(target.elts, value.elts))
+    return False
+
+
+def fuse_comprehensions(fn):
+    """rows = [f(l) for l in S if c]; out = [g(r) for r in rows]   ->   out = [g(f(l)) for l in S if c]   for a local list bound once and
+    used only as the source of other comprehensions (a pipeline of lists written stage by stage).  Returns a copy."""
+    import copy
+    fn = copy.deepcopy(fn)
+    for round_ in range(8):
+        binds, uses = {}, {}
+        parents = {}
+        for n in ast.walk(fn):
+            for c in ast.iter_child_nodes(n):
+                parents[id(c)] = n
+        for n in ast.walk(fn):
+            if isinstance(n, ast.Assign) and len(n.targets) == 1 and isinstance(n.targets[0], ast.Name):
+                binds.setdefault(n.targets[0].id, []).append(n)
+            elif isinstance(n, ast.Name) and isinstance(n.ctx, ast.Load):
+                uses.setdefault(n.id, []).append(n)
+            elif isinstance(n, (ast.AugAssign, ast.AnnAssign)) and isinstance(n.target, ast.Name):
+                binds.setdefault(n.target.id, []).append(None)
+            elif isinstance(n, (ast.For, ast.comprehension)):
+                for t in ast.walk(n.target):
+                    if isinstance(t, ast.Name):
+                        binds.setdefault(t.id, []).append(None)
+            elif isinstance(n, ast.arg):
+                binds.setdefault(n.arg, []).append(None)
+        done = False
+        for name, bs in binds.items():
+            if len(bs) != 1 or bs[0] is None or not isinstance(bs[0].value, ast.ListComp) or len(bs[0].value.generators) != 1 \
+                    or bs[0].value.generators[0].is_async:
+                continue
+            src = bs[0].value
+            us = uses.get(name, [])
+            if not us or not all(isinstance(parents.get(id(u)), ast.comprehension) and parents[id(u)].iter is u for u in us):
+                continue
+            ok = True
+            plans = []
+            for k, u in enumerate(us):
+                gen = parents[id(u)]
+                comp = parents.get(id(gen))
+                if not isinstance(comp, (ast.ListComp, ast.GeneratorExp, ast.SetComp)) or gen is not comp.generators[0] or gen.is_async:
+                    ok = False
+                    break
+                own = {t.id for t in ast.walk(src.generators[0].target) if isinstance(t, ast.Name)}
+                ren = {v: f"{v}__f{round_}{k}" for v in own}
+                g2 = _Rename(ren).visit(copy.deepcopy(src.generators[0]))
+                e2 = _Rename(ren).visit(copy.deepcopy(src.elt))
+                m = {}
+                if not _destructure(gen.target, e2, m):
+                    ok = False
+                    break
+                plans.append((comp, gen, g2, m))
+            if not ok:
+                continue
+            for comp, gen, g2, m in plans:
+                m = {k: v for k, v in m.items() if k != "_"}
+                rep = _Replace(m)
+                comp.elt = rep.visit(comp.elt)
+                rest = comp.generators[1:]
+                for g in rest:
+                    g.iter = rep.visit(g.iter)
+                    g.ifs = [rep.visit(c) for c in g.ifs]
+                g2.ifs = list(g2.ifs) + [rep.visit(c) for c in gen.ifs]
+                comp.generators = [g2] + rest
+            # drop the stage's own assignment
+            for n in ast.walk(fn):
+                for fld in ("body", "orelse", "finalbody"):
+                    b = getattr(n, fld, None)
+                    if isinstance(b, list) and bs[0] in b:
+                        b.remove(bs[0])
+                        if not b:
+                            b.append(ast.Pass())
+            done = True
+            break
+        if not done:
+            break
+    return ast.fix_missing_locations(fn)
+
+
+def _inline_lazy_sources(fn):
+    """src = takewhile(p, S) bound once and used once (as the source of a loop / comprehension): written in where it is used."""
+    import copy
+    fn = copy.deepcopy(fn)
+    binds, uses = {}, {}
+    for n in ast.walk(fn):
+        if isinstance(n, ast.Assign) and len(n.targets) == 1 and isinstance(n.targets[0], ast.Name):
+            binds.setdefault(n.targets[0].id, []).append(n)
+        elif isinstance(n, ast.Name) and isinstance(n.ctx, ast.Load):
+            uses.setdefault(n.id, []).append(n)
+        elif isinstance(n, ast.Name):
+            binds.setdefault(n.id, []).append(None)
+    m = {}
+    for name, bs in binds.items():
+        bs = [b for b in bs if b is not None] if len([b for b in bs if b is None]) == 1 else bs      # the Store name of the Assign itself
+        if len(bs) == 1 and bs[0] is not None and isinstance(bs[0].value, ast.Call) and ast.unparse(bs[0].value.func) in ("takewhile", "itertools.takewhile") \
+                and len(uses.get(name, [])) == 1:
+            m[name] = bs[0]
+    if not m:
+        return fn
+    fn = _Replace({k: v.value for k, v in m.items()}).visit(fn)
+    for n in ast.walk(fn):
+        for fld in ("body", "orelse", "finalbody"):
+            b = getattr(n, fld, None)
+            if isinstance(b, list):
+                b[:] = [x for x in b if x not in m.values()] or [ast.Pass()]
+    return fn
+
+
+def pipeline_to_loops(fn):
+    """A reader written as a pipeline of list comprehensions, as the loops it abbreviates: the stages fused, then every list comprehension
+    bound to a local name written as `t = []; for ...: t.append(...)` (takewhile sources as loops with a break)."""
+    fn = _inline_lazy_sources(fn)
+    fn = fuse_comprehensions(fn)
+    fn = _AnyCompToLoop().visit(fn)
+    fn = TakeWhile().visit(fn)
+    return ast.fix_missing_locations(fn)
 
 
 def normalise(tree):
